@@ -42,6 +42,40 @@ def run(rep, tier, seed, replay):
                     rep.violation("correspondence", "has_semantic_literals(): structural definition", {"expr": exprs[k]}, impl=i.get("sem"), model=msem[k])
         if iv == "always" or any(c in exprs[k] for c in "{<") or "**" in exprs[k]:
             rep.distinct.add(exprs[k])
+    findings, _ = common.load_findings("C12")
+    finding_ids = {f["id"] for f in findings}
+    # combinators: any() of rooted / unrooted patterns reports Always only if every match is rooted
+    import random as _random
+    rr = _random.Random(seed)
+    pool = [exprs[k] for k in built if P.impl[k].get("root") == "always"][:60] + ["/**/a", "/ab", "/a", "</**/a:1,>", "/**", "</a:1,2>b"]
+    others = [exprs[k] for k in built if P.impl[k].get("root") == "never"][:40]
+    combos = []
+    for _ in range(150 if tier == "quick" else 2000):
+        ps = [rr.choice(pool)] + [rr.choice(pool if rr.random() < 0.7 else (others or pool)) for _ in range(rr.randint(0, 2))]
+        rr.shuffle(ps)
+        combos.append(ps)
+    areq = ["A %d %s" % (len(ps), " ".join(hexs(p) for p in ps)) for ps in combos]
+    ares = [lib.parse_impl_build(x) for x in h.ask(areq)]
+    mres = [lib.parse_model_build(x) for x in m.ask(areq)]
+    art = h.ask(["RT %s" % hexs(a["pattern"]) if a["ok"] and a.get("root") == "always" else "RT -" for a in ares])
+    for ps, a, mo, line in zip(combos, ares, mres, art):
+        if not a["ok"]:
+            continue
+        rep.stats["any:root=" + a.get("root", "?")] += 1
+        if mo.get("pattern") != a.get("pattern"):
+            rep.violation("correspondence", "any(): text of the combinator's compiled program", {"any": ps}, impl=a["raw"][:200], model=mo["raw"][:200])
+        if a.get("root") == "always" and line.startswith("unrooted"):
+            w = unhex(line.split()[1])
+            if h.ask(["MA %s %d %s" % (hexs(w), len(ps), " ".join(hexs(p) for p in ps))])[0].startswith("match"):
+                # the combinator's tree nests every pattern one branch deeper: the superposition finding of C01 / C07
+                fa = m.ask(["FA %d %s" % (len(ps), " ".join(hexs(p) for p in ps))])[0]
+                tags = fa[4:].split(",") if fa.startswith("out:") else []
+                known = [t for t in tags if t in finding_ids]
+                if known and mo.get("pattern") == a.get("pattern"):
+                    for t in known:
+                        rep.known_hits[t] += 1
+                else:
+                    rep.violation("oracle", "root_sound: a combinator reports has_root = Always but matches a path that does not begin with a separator (fragment %s)" % fa, {"any": ps, "path": w}, impl="always")
     res = h.ask(["RT %s" % hexs(P.impl[k]["pattern"]) for k in rooted])
     frag = P.model_cmd("F", rooted)
     for k, line in zip(rooted, res):
@@ -58,4 +92,8 @@ def run(rep, tier, seed, replay):
             rep.violation("oracle", "build_root_sound: has_root = Always but a matched path does not begin with a separator (fragment %s)" % frag[k], {"expr": e, "path": w}, impl="always")
         else:
             rep.stats["dfa-" + line.split()[0]] += 1
-    lib.replay_findings(rep, "C12", lambda w: (False, ""))
+    def ask(wit):
+        a = lib.parse_impl_build(h.ask(["A %d %s" % (len(wit["any"]), " ".join(hexs(p) for p in wit["any"]))])[0])
+        got = h.ask(["MA %s %d %s" % (hexs(wit["path"]), len(wit["any"]), " ".join(hexs(p) for p in wit["any"]))])[0].startswith("match")
+        return a.get("root") == "always" and got, "any(%r) reports has_root = Always and matches %r" % (wit["any"], wit["path"])
+    lib.replay_findings(rep, "C12", ask)
